@@ -174,6 +174,12 @@ def tryRemoveRights (c : Cfg) (g : Game) (p : Player) (side : Side) : Game :=
   if !(Rights.has g.rights p side) then g
   else { g with rights := Rights.remove g.rights p side, zobrist := g.zobrist ^^^ c.zCastle p side }
 
+/-- the man that lands on the destination square: the promoted piece or the mover itself -/
+def placedPiece (mv : Move) (player : Player) (moved : Piece) : Piece :=
+  match mv.promotion with
+  | some pr => ⟨pr.piece, player⟩
+  | none => moved
+
 /-- `make_move`, part 1: history entry, lift the mover, remove a captured man, put the mover (or the
     promoted piece) down, remove the pawn taken en passant. Returns the moved and captured men. -/
 def mmPieces (c : Cfg) (g : Game) (mv : Move) : Option (Game × Piece × Option Piece) := do
@@ -184,9 +190,7 @@ def mmPieces (c : Cfg) (g : Game) (mv : Move) : Option (Game × Piece × Option 
   let g := { g with history := hist :: g.history }
   let (g, moved) ← removeAt c g mv.src
   let g ← (if captured.isSome then (removeAt c g mv.dst).map (·.1) else some g)
-  let g := match mv.promotion with
-    | some pr => setAt c g mv.dst ⟨pr.piece, g.player⟩
-    | none => setAt c g mv.dst moved
+  let g := setAt c g mv.dst (placedPiece mv g.player moved)
   let g ← (if mv.isEnPassant then do
               let capSq ← mv.dst.backward g.player
               (removeAt c g capSq).map (·.1)
